@@ -83,4 +83,29 @@ let () =
       Buffer.add_string b " | qasm ";
       Buffer.add_string b (hex (string_of_chars (emit fmt s.nq s.qlog)));
       print_endline (Buffer.contents b)
+    | ["replay"; hq; outs] ->
+      (* independent reader of the emitted text + replay on n pre-allocated qubits with the recorded outcomes *)
+      (match parse_qasm (chars_of_string (unhex hq)) with
+       | None -> print_endline "parse-error"
+       | Some (n, ops) ->
+         let wf = List.for_all (op_wf n) ops in
+         let outs = ref (if outs = "-" then [] else List.map (fun c -> c = '1') (chars_of_string outs)) in
+         let next () = match !outs with b :: r -> outs := r; (if b then -1.0 else 2.0) | [] -> 2.0 in
+         let fl t = float_of_string (string_of_chars t) in
+         let conv = function
+           | OGate (GH, q) -> SOp (OGate (GH, q), 0.0) | OGate (GX, q) -> SOp (OGate (GX, q), 0.0)
+           | OGate (GY, q) -> SOp (OGate (GY, q), 0.0) | OGate (GZ, q) -> SOp (OGate (GZ, q), 0.0)
+           | OGate (GRx t, q) -> SOp (OGate (GRx (fl t), q), 0.0) | OGate (GRy t, q) -> SOp (OGate (GRy (fl t), q), 0.0)
+           | OGate (GRz t, q) -> SOp (OGate (GRz (fl t), q), 0.0)
+           | OCx (c, t) -> SOp (OCx (c, t), 0.0)
+           | OReset q -> let d = next () in SOp (OReset q, d)
+           | OMeasure q -> let d = next () in SOp (OMeasure q, d) in
+         let script = List.init (int_of_nat n) (fun _ -> SAlloc) @ List.map conv ops in
+         let (s, tr) = sim_run fops (sim_init fops) script in
+         let b = Buffer.create 256 in
+         Buffer.add_string b (Printf.sprintf "nq %d | amps" (int_of_nat s.nq));
+         List.iter (fun (re, im) -> Buffer.add_string b (Printf.sprintf " %.17g %.17g" re im)) s.amps;
+         Buffer.add_string b (Printf.sprintf " | wf %b | nops %d | errs %d" wf (List.length ops)
+           (List.length (List.filter (fun (e, _) -> e <> None) tr)));
+         print_endline (Buffer.contents b))
     | _ -> failwith ("bad line: " ^ line)) ic
